@@ -270,6 +270,14 @@ class _OS(object):
 
 
 def execute(prog):
+    if prog.get("kind") == "enum":
+        # replay of an enumeration finding
+        out = core.new_outcome()
+        res = enum_order(prog["order"])
+        if res["violation"]:
+            site, msg = res["violation"]
+            out["violation"] = core.violation(ID, "uniform", site, msg)
+        return out
     core.lib()
     from ecdsa import util as lu, keys as lk, ecdh as lecdh
     from ecdsa.ecdsa import RSZeroError
@@ -288,7 +296,8 @@ def execute(prog):
 
     def device(op, order):
         r = random.Random(op["dseed"])
-        d = world.SimEntropy(op["policy"], r=r, order=order)
+        cls = world.SimEntropy if op["dseed"] % 4 else world.SizedSimEntropy
+        d = cls(op["policy"], r=r, order=order)
         devices.append(d)
         return d
 
@@ -510,6 +519,11 @@ class _bounded(object):
     """Limits the number of requests an adversarial stream serves, so a
     sampler legitimately spinning on a constant stream ends with NeedMore."""
 
+    def __new__(cls, dev, cap=64):
+        if isinstance(dev, world.SizedSimEntropy) and cls is _bounded:
+            return object.__new__(_bounded_sized)
+        return object.__new__(cls)
+
     def __init__(self, dev, cap=64):
         self.dev = dev
         self.cap = cap
@@ -518,3 +532,8 @@ class _bounded(object):
         if self.dev.calls >= self.cap:
             raise world.NeedMore()
         return self.dev(nbytes)
+
+
+class _bounded_sized(_bounded):
+    def __len__(self):
+        return len(self.dev)
